@@ -121,7 +121,11 @@ def run_property(prop, tier="quick", seed=0, patch=None, quiet=False, only_units
                                 kind = "panic"   # panic!/unwrap/expect with a formatted message
                             where = loc.rsplit(" in ", 1)[-1].rsplit("::", 1)[-1] if " in " in loc else ""
                             ob_id = "%s.implicit.%s@%s" % (r.h.unit, _safe(kind)[:50], _safe(where)[:40])
-                        p = prop_of_obligation(ob_id, r.h.kv.get("implicit", r.h.props[0])) if m else r.h.kv.get("implicit", r.h.props[0])
+                        # a harness listed under several properties carries obligations of all of them
+                        if prop in r.h.props:
+                            p = prop
+                        else:
+                            p = prop_of_obligation(ob_id, r.h.kv.get("implicit", r.h.props[0])) if m else r.h.kv.get("implicit", r.h.props[0])
                         fl = Failure(p, ob_id, r.h.unit, "kani", "%s @ %s" % (desc, loc))
                         fl.harness = r.h
                         fl.tree = t
